@@ -46,3 +46,25 @@ for _cls, _name, _lo, _hi in (('Uint8', 'uint8', 0, 255), ('Sint64', 'sint64', -
         ensures=[('decodes-back-to-the-same-typed-value',
                   f"(lambda r: intval(r) == intval(obj) and isinstance(r, {_cls}))(tp.unpack_numeric(result, '{_name}'))")],
         raises={}))
+
+# ---- un-embedding of embedded objects: shape of the result follows the shape of the value
+P = 'pywbem/_tupleparse.py::TupleParser.'
+sax_c = Contract('pywbem/_tupletree.py::xml_to_tupletree_sax', returns=TupleOf(Str, Opt(Ref('dict')), ListOf('ref')),
+                 raises={'XMLParseError': Raises()}, trusted=True)
+parse_inst_c = Contract(P + 'parse_instance', returns=Ref('CIMInstance'), raises={'CIMXMLParseError': Raises()}, trusted=True)
+parse_cls_c = Contract(P + 'parse_class', returns=Ref('CIMClass'), raises={'CIMXMLParseError': Raises()}, trusted=True)
+self_rec = Contract(P + 'parse_embeddedObject', returns=Opt(Ref('object')),
+                    raises={'CIMXMLParseError': Raises(), 'XMLParseError': Raises()},
+                    ensures=[('NULL-stays-NULL', '(result is None) == (val is None)')],
+                    notes='the scalar case proved below, used for the elements of an array')
+CONTRACTS.append(Contract(
+    P + 'parse_embeddedObject', label='scalar', params={'self': TP, 'val': Opt(Str)},
+    callees={'xml_to_tupletree_sax': sax_c, 'parse_instance': parse_inst_c, 'parse_class': parse_cls_c},
+    ensures=[('NULL-stays-NULL', '(result is None) == (val is None)')],
+    raises={'CIMXMLParseError': Raises(), 'XMLParseError': Raises()}))
+CONTRACTS.append(Contract(
+    P + 'parse_embeddedObject', label='array', params={'self': TP, 'val': ListOf(('opt', 'str'))},
+    callees={'parse_embeddedObject': self_rec},
+    decreases='1', returns=ListOf(('opt', ('ref', 'object'))),
+    ensures=[('array-stays-an-array-of-the-same-length', 'isinstance(result, list) and len(result) == len(val)')],
+    raises={'CIMXMLParseError': Raises(), 'XMLParseError': Raises()}))
